@@ -198,7 +198,7 @@ func (h *fasthttpHandler) readReqMsg(ctx *fasthttp.RequestCtx) *dnsmsg.Msg {
 		}
 		buf := pool.GetBuf(msgSize)
 		defer pool.ReleaseBuf(buf)
-		_, err := base64.RawURLEncoding.Decode(buf, base64Dns)
+		n, err := base64.RawURLEncoding.Decode(buf, base64Dns)
 		if err != nil {
 			h.logger.Warn().
 				Object("request", (*fasthttpReqLoggerObj)(ctx)).
@@ -207,7 +207,8 @@ func (h *fasthttpHandler) readReqMsg(ctx *fasthttp.RequestCtx) *dnsmsg.Msg {
 			ctx.SetStatusCode(fasthttp.StatusBadRequest)
 			return nil
 		}
-		reqWireMsg = buf
+		// The decoder skips line breaks: n may be smaller than len(buf).
+		reqWireMsg = buf[:n]
 
 	case ctx.IsPost():
 		// Check Content-Type header
